@@ -100,6 +100,30 @@ pub fn check_spec(spec: &FileSpec, only: Option<&Query>) -> Result<(u64, usize),
     if both_failed == qs.len() && !qs.is_empty() && only.is_none() {
         return Err(("prerequisite".into(), "every query fails on both versions".into(), None));
     }
+    // the stored count is metadata only: twins whose trailers store a different count (0 over
+    // real content, 1, around 2^32, u64::MAX) must report that stored count and still answer every
+    // query alike (a small sample of queries; done for files with few entries)
+    if only.is_none() && model.len() <= 3 {
+        for count in [0u64, 1, (1u64 << 32) - 1, 1u64 << 32, (1u64 << 32) + 300, u64::MAX] {
+            let mut t2 = stored.clone();
+            t2.count = count;
+            let body = &v2[..v2.len() - vlib::fmt::TRAILER_V2];
+            let v2c = [body, &t2.encode()[..]].concat();
+            let mut t1 = t2.clone();
+            t1.version = 1;
+            let v1c = [body, &t1.encode()[..]].concat();
+            let r = open(&v1c).map_err(|e| ("open".to_string(), format!("V1 file storing count {count} does not open: {e}"), None))?;
+            if r.len() != count {
+                return Err(("len".into(), format!("len() = {} on a V1 file whose trailer stores {count}", r.len()), None));
+            }
+            for q in qs.iter().step_by(5) {
+                let (a, b) = (run_query(&v1c, q), run_query(&v2c, q));
+                if a != b {
+                    return Err(("differs".into(), format!("trailers storing count {count}: {}: V1 -> {:?}, V2 twin -> {:?}", q.brief(), a.as_ref().map(|r| crate::query::describe_result(r)), b.as_ref().map(|r| crate::query::describe_result(r))), None));
+                }
+            }
+        }
+    }
     Ok((yielded, qs.len()))
 }
 
@@ -174,7 +198,7 @@ pub fn run(tier: Tier) -> i32 {
     let deadline = Deadline::after(Duration::from_secs(tier.pick(50, 3000)));
     let acc = par_for(specs.len(), 8, &deadline, |i, acc| check_one(&specs[i], acc));
     rep.acc = acc;
-    rep.set("rule", json!("E2: every index_levels = 0 file of the population (all block sizes x intervals; every codec; universe subsets; deep and dense) is re-trailed by the harness's own encoder into V1 (21 bytes: offset u64-LE, codec u8, count u64-LE, magic 0x76324D4C); Reader::new must report FormatV1, the stored count and codec, and every query of the batteries of C01 (6 scans), C02 (GE/LE/EQ x probes x fresh/reset), C04 (all bound pairs x 2 directions) and C05 (prefixes x 2 directions) must return result-for-result what the V2 twin returns; states = files, transitions = queries compared; distinct_nontrivial = non-empty files"));
+    rep.set("rule", json!("E2: every index_levels = 0 file of the population (all block sizes x intervals; every codec; universe subsets; deep and dense) is re-trailed by the harness's own encoder into V1 (21 bytes: offset u64-LE, codec u8, count u64-LE, magic 0x76324D4C); Reader::new must report FormatV1, the stored count and codec, and every query of the batteries of C01 (6 scans), C02 (GE/LE/EQ x probes x fresh/reset), C04 (all bound pairs x 2 directions) and C05 (prefixes x 2 directions) must return result-for-result what the V2 twin returns; states = files, transitions = queries compared; for small files the twins are also compared with perturbed stored counts (0, 1, 2^32-1, 2^32, 2^32+300, u64::MAX); distinct_nontrivial = non-empty files"));
     rep.set("bound", json!({"files": specs.len(), "shape_sequence_max_len": tier.pick(3, 4), "universe_max_subset_size": tier.pick(2, 3)}));
     rep.assume("no V1 writer exists in the tree: V1 files are produced by replacing the V2 trailer of an index_levels = 0 file, whose block area has the same layout in both versions");
     rep.finish()
